@@ -245,34 +245,43 @@ pub fn order(m: &Model, ctx: &mut Ctx, rule: &str) {
         return;
     };
     ctx.func(&f.key);
-    // the loop over the key list
+    // the loops over the key list, in source order: a step's position is (loop, statement) — one loop is one pass over
+    // *all* definitions, so a step in a later loop runs after every definition has been through the earlier loops
     struct W {
-        body: Option<syn::Block>,
+        loops: Vec<syn::Block>,
     }
     impl model::DeepCb for W {
         fn expr(&mut self, e: &syn::Expr) {
-            if let syn::Expr::While(w) = e {
-                if self.body.is_none() && tok(&w.cond).contains("keys.pop()") {
-                    self.body = Some(w.body.clone());
+            let body = match e {
+                syn::Expr::While(w) => Some(&w.body),
+                syn::Expr::ForLoop(l) => Some(&l.body),
+                _ => None,
+            };
+            if let Some(body) = body {
+                let t = tok(body);
+                if ["link_constraint_reference", "collect_supertypes", "mark_recursive", "resolve_class_reference"].iter().any(|n| t.contains(&format!(".{}(", n))) {
+                    self.loops.push(body.clone());
                 }
             }
         }
     }
-    let mut w = W { body: None };
+    let mut w = W { loops: vec![] };
     model::deep_walk_block(&f.block, &mut w);
-    let Some(body) = w.body else {
-        ctx.fail_closed(rule, "Validator::link: the loop over the popped keys was not found");
+    if w.loops.is_empty() {
+        ctx.fail_closed(rule, "Validator::link: no loop over the definitions was found");
         return;
-    };
+    }
     let importers = ["resolve_class_reference", "link_components_of_notation", "link_choice_selection_type", "link_object_set_reference", "resolve_object_set_references"];
     let resolvers = ["link_constraint_reference", "collect_supertypes", "mark_recursive"];
-    let mut pos: std::collections::BTreeMap<String, (usize, usize)> = std::collections::BTreeMap::new();
-    for (i, st) in body.stmts.iter().enumerate() {
-        let blk = syn::Block { brace_token: Default::default(), stmts: vec![st.clone()] };
-        for mc in model::method_calls_in(&blk) {
-            let n = mc.method.to_string();
-            if importers.contains(&n.as_str()) || resolvers.contains(&n.as_str()) {
-                pos.entry(n).or_insert((i, model::line_of(syn::spanned::Spanned::span(&mc))));
+    let mut pos: std::collections::BTreeMap<String, ((usize, usize), usize)> = std::collections::BTreeMap::new();
+    for (l, body) in w.loops.iter().enumerate() {
+        for (i, st) in body.stmts.iter().enumerate() {
+            let blk = syn::Block { brace_token: Default::default(), stmts: vec![st.clone()] };
+            for mc in model::method_calls_in(&blk) {
+                let n = mc.method.to_string();
+                if importers.contains(&n.as_str()) || resolvers.contains(&n.as_str()) {
+                    pos.entry(n).or_insert(((l, i), model::line_of(syn::spanned::Spanned::span(&mc))));
+                }
             }
         }
     }
@@ -299,6 +308,17 @@ pub fn order(m: &Model, ctx: &mut Ctx, rule: &str) {
                 ctx.violate(rule, &format!("{}-after-{}", imp, res), &f.file, *li,
                     &format!("Validator::link runs `{}` (which copies parts of another definition into the current one) after `{}`: what it copies from a definition that has not been linked yet is never resolved, so the result depends on whether the referenced name sorts before or after the referencing one", imp, res));
             }
+        }
+    }
+    // two phases: a value (a DEFAULT, a value assignment) is linked against the definition of its governing type *as it stands
+    // in the table*; the integer type of `Aa-int ::= INTEGER (0..maxv)` is known only once its own constraint reference has
+    // been resolved. collect_supertypes in the same pass as link_constraint_reference sees resolved bounds for the names that
+    // happen to have been visited already and unresolved ones for the rest.
+    if let (Some(((lc, _), _)), Some(((ls, _), line))) = (pos.get("link_constraint_reference"), pos.get("collect_supertypes")) {
+        ctx.oblige(rule, "phase:constraint-references-before-values", true);
+        if ls <= lc {
+            ctx.violate(rule, "phase:values-linked-in-the-pass-that-resolves-constraints", &f.file, *line,
+                "Validator::link links values (collect_supertypes) in the same pass over the definitions that resolves constraint references: `Zz ::= SEQUENCE { a Aa-int DEFAULT 3 }` with `Aa-int ::= INTEGER (0..maxv)` is linked while the bound of Aa-int is still the unresolved reference — the DEFAULT is typed as an unconstrained INTEGER (`AaInt(Integer::from(3i128))` for `struct AaInt(pub u8)`) — whereas the same with a referenced type that sorts *after* the referencing one gets `ZzInt(3)`: the result depends on the spelling of the names");
         }
     }
 }
@@ -842,7 +862,7 @@ pub fn run(m: &Model, ctx: &mut Ctx) {
 contains_constraint_reference / link_constraint_reference, references_class_by_name / resolve_class_reference) must traverse the same container variants of ASN1Type: a container the detector enters but the rewriter does not (or vice versa) leaves a notation unexpanded at that position. \
 C09.splice: COMPONENTS OF members are spliced at the position of the notation (not appended), only root components of the referenced type are taken, and the referenced type may be a SEQUENCE or a SET. \
 C09.order: in Validator::link every importing step (class-field types, COMPONENTS OF, selection types, object-set references) precedes the resolving steps (constraint references, collect_supertypes, mark_recursive) of the same key. C09.scope: named numbers in a constraint are looked up under the governing type. C09.noskip: linker errors are not discarded (shared with C10.discard). \
-Not applicable: the equivalence sugared = expanded itself, independence from the order of names (the single pass reads other definitions in whatever link state they are), parameter substitution and selection types beyond the traversal symmetry.".into();
+C09.order:phase: values are linked in a later pass over the definitions than the one that resolves constraint references (within one pass the outcome depends on how the names sort). Not applicable: the equivalence sugared = expanded itself, independence from the order of names beyond the pass structure, parameter substitution and selection types beyond the traversal symmetry.".into();
     ctx.assumptions = vec!["the IR container variants are Sequence, Set, SequenceOf, SetOf, Choice".into()];
     ctx.rule("sibling agreement of detector/rewriter traversals; insertion-position rule for COMPONENTS OF");
     let en: Vec<String> = m.find_enum("ASN1Type").map(|e| e.variants.clone()).unwrap_or_default();
